@@ -711,6 +711,34 @@ func Plan(c *core.Case, w Workload, chunk, chunks int, perStratum int, uniform i
 			}
 		}
 	}
+	// the flush / compaction hand-over "table file complete -> manifest edit(s) -> WAL segment or
+	// input tables removed": every operation in the window after the first, the middle and the
+	// last table creation, and the two operations around the first and last WAL segment removal
+	// (a change in the order of these steps only shows between two particular operations).
+	pick3 := func(ords []int64) []int64 {
+		if len(ords) <= 3 {
+			return ords
+		}
+		return []int64{ords[0], ords[len(ords)/2], ords[len(ords)-1]}
+	}
+	for _, n := range pick3(dr.Strata["open_file|sst"]) {
+		for d := int64(1); d <= 10; d++ {
+			if n+d <= dr.Total && !seen[n+d] {
+				seen[n+d] = true
+				pts = append(pts, Point{KillAt: n + d, AfterStep: -1, Stratum: "within-10-ops-after-table-create"})
+			}
+		}
+	}
+	if ords := dr.Strata["remove|wal"]; len(ords) > 0 {
+		for _, n := range []int64{ords[0], ords[len(ords)-1]} {
+			for _, d := range []int64{-2, -1, 1, 2} {
+				if m := n + d; m >= 1 && m <= dr.Total && !seen[m] {
+					seen[m] = true
+					pts = append(pts, Point{KillAt: m, AfterStep: -1, Stratum: "around-wal-segment-removal"})
+				}
+			}
+		}
+	}
 	nsteps := len(w.Steps())
 	for k := 0; k < nsteps; k += max(1, nsteps/8) {
 		pts = append(pts, Point{AfterStep: k, Stratum: "after-step"})
